@@ -117,7 +117,7 @@ theorem c02_holds (cfg : Cfg) (s : St) (evs : List Ev) (hb : Boundary s) (hinv :
     obtain ⟨n, hn⟩ := List.exists_mem_of_ne_nil _ hnil
     have hc := hcur n hn
     have hsome : (run cfg s evs).uowD.cur.isSome = true := by rw [hc]; rfl
-    rcases run_cur_cause hsome with h2 | h2
+    rcases run_cur_cause_corrected (wf_no_spRollback hwf1) hsome with h2 | h2
     · have : s.uowD.cur = none := by unfold St.uowD; rw [huow]; rfl
       rw [this] at h2; cases h2
     · exact h2
